@@ -38,8 +38,16 @@ def judge(res: C.Result, results: Dict[str, Dict[str, Any]]):
             clause = v[5:].split()[0]
             detail = {"tool_py": obs.get("py_probe_error"), "tool_c": obs.get("gcc_error"),
                       "tool_js": obs.get("node_error"), "tool_m": obs.get("m_error")}.get(clause) or obs.get("error", "")
-            res.failures.append(C.Failure(clause=clause, case=cl, detail=f"{clause}: {detail}"[:400],
-                                          finding=R.match(PROP, clause, cl, MATCHERS)))
+            # the driver names the finding class with the Lean predicates on the model's registry (`Reg.aliasOfStruct`,
+            # `Reg.structUsesMsg`: the side conditions of the theorem `loadable`); a failure counts as the known finding only
+            # if that class AND the structural signature of the closure agree
+            lean_cls = {t[6:] for t in v.split() if t.startswith("class:")}
+            finding = R.match(PROP, clause, cl, MATCHERS)
+            if finding is not None and finding.split("-")[-1] not in lean_cls:
+                other = [f for f in ("C15-F3", "C15-F4") if f.split("-")[-1] in lean_cls and MATCHERS[f](clause, cl)]
+                finding = other[0] if other else None
+            res.failures.append(C.Failure(clause=clause, case=cl, detail=f"{clause}: {detail} [{' '.join(sorted(lean_cls))}]"[:400],
+                                          finding=finding))
         if len(res.samples) < 5 and ndefs >= 3:
             res.sample({"tags": cl.get("tags"), "outcome": obs.get("outcome"), "verdict": v, "root": cl["root"],
                         "files": list(cl["files"])})
